@@ -7,8 +7,10 @@ package storage
 
 import (
 	"context"
+
 	"errors"
 	"fmt"
+	"golang.org/x/telemetry/godev/internal/config"
 	"io"
 	"os"
 	"path/filepath"
@@ -42,6 +44,7 @@ func scenarioC18(c *hlib.RunCtx) *hlib.Violation {
 		}
 	}
 	ctx := context.Background()
+	viaConfig := t.Bool(1, 2)
 	root := filepath.Join(c.Dir, "store")
 	bname := []string{"uploaded", "dev-telemetry-merged", "charts"}[t.Draw(3)]
 	// the storage directory as a configuration may spell it: clean, or with a
@@ -55,9 +58,27 @@ func scenarioC18(c *hlib.RunCtx) *hlib.Violation {
 	case 3:
 		rootArg = filepath.Dir(root) + "/./" + filepath.Base(root)
 	}
-	bh, err := NewFSBucket(ctx, rootArg, bname)
+	// opened as the servers do (through the configuration) or directly
+	open := func(dir, name string) (BucketHandle, error) {
+		if viaConfig {
+			return NewBucket(ctx, &config.Config{LocalStorage: dir}, name)
+		}
+		return NewFSBucket(ctx, dir, name)
+	}
+	bh, err := open(rootArg, bname)
 	if err != nil {
 		panic(err)
+	}
+	// another storage directory with a bucket of the same name, in the same
+	// process: its objects are its own
+	root2 := filepath.Join(c.Dir, "store2")
+	bh2, err := open(root2, bname)
+	if err != nil {
+		panic(err)
+	}
+	if w2, err := bh2.Object("2024-01-08/0.5.json").NewWriter(ctx); err == nil {
+		w2.Write([]byte("second root"))
+		w2.Close()
 	}
 	// a sibling whose name starts with this bucket's name (production buckets share a prefix)
 	twin, _ := NewFSBucket(ctx, root, bname+"-old")
@@ -124,7 +145,7 @@ func scenarioC18(c *hlib.RunCtx) *hlib.Violation {
 	for i := 0; i < nops && viol == nil; i++ {
 		if t.Bool(1, 8) {
 			// the service restarts: a new handle over the same directory
-			nb, err := NewFSBucket(ctx, rootArg, bname)
+			nb, err := open(rootArg, bname)
 			if err != nil {
 				fail("reopen-failed", "a second NewFSBucket over an existing bucket directory: %v", err)
 				break
@@ -320,6 +341,9 @@ func scenarioC18(c *hlib.RunCtx) *hlib.Violation {
 	if viol == nil {
 		if b, err := os.ReadFile(filepath.Join(root, bname+"-old", "2024-01-08", "0.5.json")); err != nil || string(b) != "twin" {
 			fail("other-bucket-touched", "an object of the bucket %s-old changed", bname)
+		}
+		if b, err := os.ReadFile(filepath.Join(root2, bname, "2024-01-08", "0.5.json")); err != nil || string(b) != "second root" {
+			fail("other-bucket-touched", "the bucket of the same name under another storage directory changed or was never written (%v)", err)
 		}
 		if b, err := os.ReadFile(filepath.Join(root, "other", "keep.json")); err != nil || string(b) != "keep" {
 			fail("other-bucket-touched", "an object of another bucket changed")
